@@ -228,7 +228,13 @@ def gen_dataset(rng, prof):
     d.scens.append((3, lists))
     # a fourth scenario AFTER a restricted one: unrestricted half of the time (a loader that lets lists of one scenario leak
     # into the next is only visible on a later, less restricted scenario)
-    d.scens.append((4, restricted() if rng.chance(0.5) else [[1, 2], [], [], [], [], [], [], [], []]))
+    # ... and a third of the time the COMPLEMENT of scenario 3: same services, every only-list moved to the except-list of the
+    # same kind and back (a connection-set cache or memo keyed by the entries without the list they stand in confuses the two)
+    if rng.chance(0.33) and any(lists[1:8]):
+        comp = [list(lists[0]), list(lists[5]), list(lists[6]), list(lists[7]), list(lists[8]), list(lists[1]), list(lists[2]), list(lists[3]), list(lists[4])]
+        d.scens.append((4, comp))
+    else:
+        d.scens.append((4, restricted() if rng.chance(0.5) else [[1, 2], [], [], [], [], [], [], [], []]))
     return d
 
 
